@@ -307,6 +307,18 @@ def run_base_capa(
     # iterations later.
     pending_prunes = []
 
+    # Only point anomalies can end within the first min_segment_length - 1 samples.
+    for t in range(min(min_segment_length - 1, n)):
+        t_array = np.array([t])
+        point_savings = point_saving.evaluate(np.column_stack((t_array, t_array + 1)))
+        opt_point_saving, _, _ = optimise_savings(
+            t_array, opt_savings, point_savings, point_alpha, point_betas
+        )
+        opt_savings[t + 1] = opt_savings[t]
+        if opt_point_saving > opt_savings[t]:
+            opt_savings[t + 1] = opt_point_saving
+            opt_anomaly_starts[t] = t
+
     ts = np.arange(min_segment_length - 1, n)
     for t in ts:
         # Collective anomalies
